@@ -97,7 +97,8 @@ def check_node(n, problems, parent_kind):
     check_children(n.children, f"{k.name}.children", problems, k)
 
 
-ctx = new_ctx({"a": "A{{{1|}}}", "h": "==H==\n{{{1|}}}"})
+# default output settings: diagnostics are formatted and printed (into the swallowed stdout), as in ordinary use
+ctx = new_ctx({"a": "A{{{1|}}}", "h": "==H==\n{{{1|}}}"}, noisy=True)
 
 
 def run(text, kw, tag):
@@ -147,6 +148,9 @@ for _ in range(4000 if tier == "quick" else 150000):
     text = "".join(rng.choice(TOK) for _ in range(k))
     run(text, rng.choice(OPTS), "random-soup")
 # line-structured documents: block-level markers at line starts, nested lists / tables / refs
+# diagnostics raised while a heading is still open
+for t in ("== <b>Etymology ==", "=== Noun</span> ===\ntext </b>", "== a\n</div>", "==<i>x==\n{{a|"):
+    run(t, {}, "open-heading-diagnostics")
 LINE_START = ["* ", "** ", "*: ", "# ", "#* ", ": ", "; ", "{|", "|-", "| ", "|| ", "! ", "!! ", "|+ ", "|}", "*<ref>", "<ref>",
               "</ref>", "== h ==", "=== s ===", "<div>", "</div>", "----", "", " pre", "<pre>", "</pre>", "{{a|", "}}"]
 INLINE = ["a", "q", "x [[L]] y", "''i''", "{{a|z}}", "", "<b>b</b>", "[http://e.org t]", "! z", "|| c", "<nowiki></nowiki>"]
